@@ -38,6 +38,16 @@ CLAIMED = {
             'pydantic validator sequencing / frozen semantics, tomllib, Path.exists by assumed contracts; key-uniformity of '
             'dict operations (one key per presence/type class represents all keys)',
             'contract-based deductive verification: AST->z3 VCs of the real source, sidecar contracts', 'DESIGN 2 C18'),
+    'C15': ('proof',
+            'GroundTrack is built by its real constructor from 2, 3 and 4 symbolic waypoints; location / step / _overstep / '
+            'total_distance / Point.__post_init__ and Mission.gc_distance are executed symbolically and their postconditions '
+            '(point = forward geodesic from the leg start at offset s - index[j]; end points exact; overstep continues the last '
+            'geodesic; refusals exactly for the documented reasons; azimuth in [0,360); gc_distance = geodesic distance = track '
+            'length, symmetric) are discharged by z3 for all coordinates and distances, each query preceded by an arbitrary '
+            'earlier query on the same object. The number of waypoints is bounded (2..4), everything else unbounded.',
+            'pyproj.Geod by assumed contract (argument order lon,lat; d>=0; symmetry; fwd(p,az12,d)=q): geodesic truth itself is '
+            'not proved; floats as reals; bisect_left by its counting definition',
+            'contract-based deductive verification: AST->z3 VCs of the real source, sidecar contracts', 'DESIGN 2 C15'),
 }
 REASONS_TODO = 'check not built yet (work in progress; see DESIGN.md section 2)'
 
